@@ -217,10 +217,10 @@ func ruleRecoverRunsPlans(r *Run, rule string) {
 				return true
 			}
 			if f, ok := calleeFunc(info, c); ok && FuncKey(f) == execKey("Plans.runPlan") && len(c.Args) == 2 {
-				if rs.Value != nil && SameObj(info, c.Args[1], rs.Value) {
+				if IsLoopElem(info, rs, c.Args[1]) {
 					okLoop, msg = true, ""
 				} else {
-					msg = "runPlan is not given the range value"
+					msg = "runPlan is not given the element of the iteration"
 				}
 			}
 			return true
@@ -1195,14 +1195,9 @@ func propagationDyn(fl *Flow, paths []Path) (n int, bad string, pos token.Pos) {
 			if e.Kind != EvCall || e.Deferred {
 				continue
 			}
-			v, ok := e.Callee.(*types.Var)
-			if !ok || v.IsField() {
-				continue
-			}
-			if _, isSig := v.Type().Underlying().(*types.Signature); !isSig {
-				continue
-			}
-			if ShortType(v.Type()) != "execute.validator" {
+			// a dynamic call of a value of type validator, however the value is spelled (v, vs[i], p.f)
+			tv, ok := fl.Info.Types[e.Call.Fun]
+			if !ok || ShortType(tv.Type) != "execute.validator" {
 				continue
 			}
 			n++
